@@ -8,24 +8,24 @@ import (
 // fontEntry holds a single key-value pair for an LRU cache.
 type fontEntry struct {
 	next, prev *fontEntry
-	key        *font.Font
+	key        *font.Face
 	v          *harfbuzz.Font
 }
 
 // fontLRU is a least-recently-used cache for harfbuzz fonts built from
-// font.Fonts. It uses a doubly-linked list to track how recently elements have
+// font.Faces (a harfbuzz font depends on the settings of the face, like variations). It uses a doubly-linked list to track how recently elements have
 // been used and a map to store element data for quick access.
 type fontLRU struct {
 	// This implementation is derived from the one here under the terms of the UNLICENSE:
 	//
 	// https://git.sr.ht/~eliasnaur/gio/tree/e768fe347a732056031100f2c66987d6db258ea4/item/text/lru.go
-	m          map[*font.Font]*fontEntry
+	m          map[*font.Face]*fontEntry
 	head, tail *fontEntry
 	maxSize    int
 }
 
 // Get fetches the value associated with the given key, if any.
-func (l *fontLRU) Get(k *font.Font) (*harfbuzz.Font, bool) {
+func (l *fontLRU) Get(k *font.Face) (*harfbuzz.Font, bool) {
 	if lt, ok := l.m[k]; ok {
 		l.remove(lt)
 		l.insert(lt)
@@ -36,9 +36,9 @@ func (l *fontLRU) Get(k *font.Font) (*harfbuzz.Font, bool) {
 
 // Put inserts the given value with the given key, evicting old
 // cache entries if necessary.
-func (l *fontLRU) Put(k *font.Font, v *harfbuzz.Font) {
+func (l *fontLRU) Put(k *font.Face, v *harfbuzz.Font) {
 	if l.m == nil {
-		l.m = make(map[*font.Font]*fontEntry)
+		l.m = make(map[*font.Face]*fontEntry)
 		l.head = new(fontEntry)
 		l.tail = new(fontEntry)
 		l.head.prev = l.tail
